@@ -53,6 +53,7 @@ static Cfg make_cfg(uint64_t seed, long ci) {
         if (r.chance(1, 4)) c.C = (uint32_t)c.B;   // container == buffer
     }
     c.level = r.chance(1, 2) ? 0 : 6;
+    if (r.chance(1, 8)) c.level = 10;      // File.h documents the Vector levels 0, 6 and 10 ("maximum compression")
     c.trailer = r.chance(1, 2);
     int n = (c.kind == 5 || c.kind == 6) ? r.below(3) : r.chance(1, 10) ? 0 : 1 + r.below(c.shipped ? 3 : 6);   // incl. the empty file / empty session
     long b = c.B > 0 ? c.B : 0x20000;
@@ -230,7 +231,7 @@ int main(int argc, char ** argv) {
         if (ci != cur_cfg) {
             cur_cfg = ci; c = dfsmode ? make_dfs_cfg(ci) : make_cfg(seed, ci); ref_ok = false;
             bool reading = c.kind == 0 || c.kind == 1 || c.kind == 2 || c.kind == 5;
-            if (reading) twin::save(path, twin::wrap(make_stream(c), c.C, c.level));
+            if (reading) twin::save(path, twin::wrap(make_stream(c), c.C, std::min(c.level, 9)));     // the independent encoder speaks zlib levels
             else {
                 // uncontrolled reference run: the file every schedule must reproduce byte for byte
                 wd::note(("native reference " + c.str()).c_str());
